@@ -158,10 +158,10 @@ def cmd_table():
         caught = [c for c, r in det.items() if r["rc"] == 1]
         missed = [c for c, r in det.items() if r["rc"] != 1]
         what = (m.get("breaks") or "")[:110].replace("|", "/").replace("\n", " ")
-        rows.append("| %s | %s | %s | %s | %s |" % (name, m["property"], what, ", ".join("%s (%s)" % (c, det[c]["tier"]) for c in caught) or "-",
-                                                   ", ".join(missed) or "-"))
-    print("| seed | property | change | caught by | run but silent |")
-    print("|---|---|---|---|---|")
+        rows.append("| %s | %s | %s | %s | %s | %s |" % (name, m["property"], what, ", ".join("%s (%s)" % (c, det[c]["tier"]) for c in caught) or "-",
+                                                        ", ".join(missed) or "-", (m.get("first_run") or "")[:160]))
+    print("| seed | property | change | caught by (now) | run but silent (now) | first run |")
+    print("|---|---|---|---|---|---|")
     print("\n".join(rows))
 
 
